@@ -105,6 +105,46 @@ def kernel_unit(kind, n, col, spread_form, weighted):
                         "ranges": "y,yhat in [0.1,40] (integers >= 1 for counts), spread in [0.2,5]"}, tol=1e-6, max_paths=200)
 
 
+def typed_unit(kind, ydtype, spread):
+    """TYPED inputs (a dtype or a Python scalar type is not a real number, so it is enumerated concretely):
+    observations as an integer / float ndarray, spread as a Python scalar (int, float) or left to its default;
+    predictions stay symbolic."""
+    yvals = [3, 1, 4]
+    n = len(yvals)
+    default = {"Normal": 1.0, "Gamma": 2.0, "NegBinom": 1.0}
+
+    def h(c):
+        y = np.array(yvals, dtype=ydtype)
+        yh = arr(c, [c.real("yh%d" % i, lo=0.1, hi=40) for i in range(n)])
+        spv = spread if spread is not None else default.get(kind)
+        env = {}
+        for i in range(n):
+            env["y%d" % i], env["yh%d" % i], env["w%d" % i], env["sp%d" % i] = float(yvals[i]), yh[i], 1.0, (float(spv) if spv is not None else None)
+        V = expr.Var
+        refs = [ref_nll(kind, V("y%d" % i), V("yh%d" % i), V("sp%d" % i), V("w%d" % i)) for i in range(n)]
+        patches, st = stats_patches(c) if c.mode == "sym" else ([], None)
+        with stubs.patched(*patches):
+            if kind in ("Square", "Poisson"):
+                L = make_loss(kind, y, None, None)
+            elif spread is None:
+                from pygom.loss import loss_type as lt
+                L = {"Normal": lt.Normal, "Gamma": lt.Gamma, "NegBinom": lt.NegBinom}[kind](y)
+            else:
+                L = make_loss(kind, y, None, spread)
+            loss = L.loss(yh)
+            d1 = L.diff_loss(yh, apply_weighting=False)
+            d2 = L.diff2Loss(yh, apply_weighting=False)
+        ref_total = zsum(expr.ev(r, env) for r in refs)
+        c.prove(near(loss, ref_total, c, eps=1e-8, tol=1e-7), "%s loss == minus summed reference log density (typed inputs)" % kind)
+        d1r = [expr.ev(expr.d(refs[i], "yh%d" % i), env) for i in range(n)]
+        d2r = [expr.ev(expr.d(expr.d(refs[i], "yh%d" % i), "yh%d" % i), env) for i in range(n)]
+        c.prove(all_near(np.asarray(d1, dtype=object).ravel(), d1r, c, eps=1e-8, tol=1e-7), "diff_loss == d loss / d yhat_i (typed inputs)")
+        c.prove(all_near(np.asarray(d2, dtype=object).ravel(), d2r, c, eps=1e-8, tol=1e-7), "diff2Loss == d2 loss / d yhat_i^2 (typed inputs)")
+    return Unit("C14.typed[%s,y=%s,spread=%r]" % (kind, np.dtype(ydtype).name, spread), h,
+                bounds={"observations": yvals, "y_dtype": np.dtype(ydtype).name, "spread": "python %s %r" % (type(spread).__name__, spread),
+                        "predictions": "symbolic in [0.1,40]"}, tol=1e-6, max_paths=200)
+
+
 class C14(Check):
     id = "C14"
     level = "translation_validation"
@@ -127,6 +167,16 @@ class C14(Check):
             us.append(kernel_unit(kind, 1, False, forms[0], False))
             if kind in ("Square", "Normal"):
                 us.append(kernel_unit(kind, 2, False, forms[0], True))
+        # typed inputs: integer / float observation arrays with Python-scalar spread (fractional, integral, default)
+        for kind in ("Normal", "Gamma", "NegBinom"):
+            us.append(typed_unit(kind, np.int64, 2.5 if kind != "NegBinom" else 1.5))
+            us.append(typed_unit(kind, np.float64, None))
+            if tier != "quick":
+                us.append(typed_unit(kind, np.int64, 3))
+                us.append(typed_unit(kind, np.float64, 0.5))
+                us.append(typed_unit(kind, np.int64, None))
+        us.append(typed_unit("Poisson", np.int64, None))
+        us.append(typed_unit("Square", np.int64, None))
         return us
 
 
